@@ -210,6 +210,11 @@ def r2(c):
     ret = [n for n in walk_no_nested(fn) if isinstance(n, ast.Return)][-1]
     v = ret.value
     ok = isinstance(v, ast.ListComp) and not v.generators[0].ifs
+    if isinstance(v, ast.Name):
+        # projection loop: acc = []; for x in <collected>: acc.append(<part of x>)  -- unconditional
+        apps = [x for x in calls_in(fn) if isinstance(x.func, ast.Attribute) and x.func.attr == "append" and norm(x.func.value) == v.id]
+        ok = len(apps) == 1 and gm.formula(apps[0]) == G.T and len(gm.in_loop(apps[0])) == 1 and \
+            not [n for n in walk_no_nested(gm.in_loop(apps[0])[0]) if isinstance(n, (ast.Continue, ast.Break))]
     c.check("C03.R2", ok, repo.loc(m, ret), "base_diff/return", "the returned list filters the collected items", key_text="return-filter")
 
 
@@ -368,10 +373,15 @@ def r5(c):
     c.check("C03.R5", not skip, repo.loc(dm, skip[0] if skip else g), "gen_pre_as_diff/no-skip",
             f"`{norm(skip[0]) if skip else ''}` under [{G.show(gm2.formula(skip[0])) if skip else ''}] skips rules, keys, ops or rows in the rendered diff", key_text="gpd-skip")
     srcs = [norm(lp.iter) for lp in loops if isinstance(lp, ast.For)]
-    ok = len(loops) == 4 and "pre.items()" in srcs[0] and any("ops" in s for s in srcs)
+    pvg = Provenance(g)
+    chains = [pvg.iteration_bases(lp.iter) for lp in loops if isinstance(lp, ast.For)]
+    bases = [b for b, _ in chains]
+    # rule x key x op x row: the outermost walks pre, one walks the keys of a rule (content['items']), one walks every op of ops_order, the innermost the rows of the bucket
+    ok = len(loops) == 4 and any("pre.items()" in x or x == "pre" for x in bases[0]) and any(any("items" in x for x in b) for b in bases[1:2]) \
+        and any(any("ops_order" in x for x in b) for b in bases)
     c.check("C03.R5", ok, repo.loc(dm, g), "gen_pre_as_diff/loops", f"expected rule × key × op × row nesting, found {srcs}", key_text="gpd-loops")
-    ops_def = [n for n in walk_no_nested(g) if isinstance(n, ast.Assign) and norm(n.targets[0]) == "ops"]
-    ok = bool(ops_def) and isinstance(ops_def[0].value, ast.ListComp) and "ops_order.items()" in norm(ops_def[0].value) and not ops_def[0].value.generators[0].ifs
+    opchain = [(b, f) for b, f in chains if any("ops_order" in x for x in b)]
+    ok = bool(opchain) and not opchain[0][1]
     c.check("C03.R5", ok, repo.loc(dm, g), "gen_pre_as_diff/ops", "the ops iterated are not all of ops_order", key_text="gpd-ops")
     rec = [n for n in walk_no_nested(g) if isinstance(n, ast.YieldFrom)]
     ok = bool(rec) and call_name(rec[0].value) == "gen_pre_as_diff" and "_level + 1" in norm(rec[0].value)
